@@ -204,6 +204,13 @@ class Explorer:
         work = [[]]
         outs = []
         self.complete = False
+        r0 = str(self.solver.check())
+        self.solver_calls += 1
+        if r0 == 'unsat':          # the constraints admit no input at all: nothing to explore
+            self.complete = True
+            return outs
+        if r0 != 'sat':
+            raise HarnessError(f'shapesym: constraints are {r0}')
         try:
             while work:
                 if self.deadline is not None and time.time() > self.deadline:
